@@ -547,6 +547,16 @@ func configure(g *gen) {
 	add(FnSpec{Recv: "Context", Func: "WriteString", Lean: "Ctx.WriteString", Extra: []string{"(ext : Int × Bool)"}, Mutates: true,
 		Exts: []Ext{{Callee: "$.WriteBytes", Stmts: []string{"$ ← Gen.Ctx.WriteBytes $ %1 ext"}, MayPanic: true}}})
 	add(FnSpec{Recv: "Context", Func: "SetStatusCode", Lean: "Ctx.SetStatusCode"})
+	// the URL-query readers: `c.Req.URL.Query()` parses the raw query on EVERY call (a parameter: `query req key` = the
+	// values of that parse under the key and whether the key is there); nothing is kept in the context
+	qExtra := []string{"(query : Option Nat → Bytes → List Bytes × Bool)"}
+	qT := map[string]T{"[]string": tStrList}
+	add(FnSpec{Recv: "Context", Func: "QueryParams", Lean: "Ctx.QueryParams", Extra: qExtra, Types: qT, Exts: []Ext{
+		{Callee: "$.Req.URL.Query()[]", Values: []string{"(query $.req %1).1", "(query $.req %1).2"}, Ts: []T{tStrList, tBool}}}})
+	add(FnSpec{Recv: "Context", Func: "QueryParam", Lean: "Ctx.QueryParam", Extra: qExtra, Types: qT, Exts: []Ext{
+		{Callee: "$.QueryParams", Values: []string{"(Gen.Ctx.QueryParams $ %1 query).1", "(Gen.Ctx.QueryParams $ %1 query).2"}, Ts: []T{tStrList, tBool}}}})
+	add(FnSpec{Recv: "Context", Func: "Query", Lean: "Ctx.Query", Extra: qExtra, Types: qT, Exts: []Ext{
+		{Callee: "$.QueryParam", Stmts: []string{"let %t ← Gen.Ctx.QueryParam $ %1 query"}, Values: []string{"%t.1", "%t.2"}, Ts: []T{tStr, tBool}, MayPanic: true}}})
 	add(FnSpec{Recv: "Context", Func: "SetStatus", Lean: "Ctx.SetStatus"})
 	add(FnSpec{Recv: "Context", Func: "StatusCode", Lean: "Ctx.StatusCode"})
 	add(FnSpec{Recv: "Context", Func: "Length", Lean: "Ctx.Length"})
